@@ -105,6 +105,11 @@ def run(ctx):
         key = clause
         if done.get(key, 0) >= 6:
             continue
+        tries = getattr(ctx, '_tries', None) or {}
+        ctx._tries = tries
+        tries[key] = tries.get(key, 0) + 1
+        if tries[key] > 12:
+            continue    # enough attempts to reproduce this clause
         again = validate(ctx, [dict(it, id="re")])
         if again and again[0][1] == clause:
             done[key] = done.get(key, 0) + 1
